@@ -41,7 +41,7 @@ func (propC15) ID() string    { return "C15" }
 func (propC15) Race() bool    { return false }
 func (propC15) Level() string { return "exploration" }
 func (propC15) Rule() string {
-	return "one run = a seeded history of up to 40 operations (SetCache, SetAutoReload, SetDevelopmentMode, registration through RegisterString / ParseTemplate+RegisterTemplate / RegisterCompiledTemplate / LoadFromCompiledData with stored timestamps unrelated to the clock, RegisterLoader and ChainLoader.AddLoader in mid-history, loader content change / touch / delete, simulated-clock steps of 0 s, 1 s, backwards, one-shot loader faults EIO / mtime error, Load, Render) over 1-3 names and 1-3 loaders out of {timestamp-aware in-memory loader with read counters, ArrayLoader, ChainLoader, FileSystemLoader and CompiledLoader on the simulated disk}. Every version of every source carries a unique tag, so the version a call served is read off its result; an executable state machine written from the property text gives the admissible versions, the error class and whether the loaders must / must not have been read. distinct = distinct event-log hash; non-trivial = the history contains a reload decision (cached entry with auto-reload on) or a cache-mode change before a Load/Render"
+	return "one run = a seeded history of up to 40 operations (SetCache, SetAutoReload, SetDevelopmentMode, registration through RegisterString / ParseTemplate+RegisterTemplate / RegisterCompiledTemplate / LoadFromCompiledData with stored timestamps unrelated to the clock, RegisterLoader and ChainLoader.AddLoader in mid-history, loader content change / touch / delete, simulated-clock steps of 0 s, 1 s, backwards, one-shot loader faults EIO / mtime error, Load, Render directly or through a fixed wrapper template that includes / extends the name) over 1-3 names and 1-3 loaders out of {timestamp-aware in-memory loader with read counters, ArrayLoader, ChainLoader, FileSystemLoader and CompiledLoader on the simulated disk}. Every version of every source carries a unique tag, so the version a call served is read off its result; an executable state machine written from the property text gives the admissible versions, the error class and whether the loaders must / must not have been read. distinct = distinct event-log hash; non-trivial = the history contains a reload decision (cached entry with auto-reload on) or a cache-mode change before a Load/Render"
 }
 func (propC15) Assumptions() []string {
 	return []string{
@@ -124,7 +124,7 @@ func (propC15) Gen(seed uint64, ex map[string]bool) interface{} {
 		case c < 27:
 			sc.Ops = append(sc.Ops, c15Op{K: "load", Name: name})
 		default:
-			sc.Ops = append(sc.Ops, c15Op{K: "render", Name: name})
+			sc.Ops = append(sc.Ops, c15Op{K: "render", Name: name, Via: pick(r, []int{0, 0, 0, 1, 2})})
 		}
 	}
 	sc.Ops = append(sc.Ops, c15Op{K: "render", Name: sc.Names[0]}, c15Op{K: "load", Name: sc.Names[len(sc.Names)-1]})
@@ -333,6 +333,18 @@ func (propC15) Run(scI interface{}) *Outcome {
 	}
 	for i, k := range sc.Loaders {
 		mkLoader(i, k)
+	}
+	// fixed wrapper templates that reach a name through include / extends; they live in a loader of their own
+	// (after the initial ones, never modified) and are loaded once up front so that they are cached from the start
+	wrap := map[string]string{}
+	for _, n := range []string{"a", "b", "c", "d"} {
+		wrap["winc_"+n] = "<inc>{% include '" + n + "' %}"
+		wrap["wext_"+n] = "{% extends '" + n + "' %}"
+	}
+	e.RegisterLoader(twig.NewArrayLoader(wrap))
+	for _, n := range []string{"a", "b", "c", "d"} { // fixed order: a harness map walk would differ between processes
+		e.Load("winc_" + n)
+		e.Load("wext_" + n)
 	}
 	setFile := func(l *c15Loader, name string, ver int, second bool) {
 		src := c15Src(name, ver)
@@ -614,11 +626,21 @@ func (propC15) Run(scI interface{}) *Outcome {
 					got = verOf(src)
 				}
 			} else {
-				out, err := e.Render(op.Name, nil)
+				top, pre := op.Name, ""
+				switch op.Via {
+				case 1: // the name is reached through an include in a fixed wrapper template
+					top, pre = "winc_"+op.Name, "<inc>"
+				case 2: // … through extends
+					top = "wext_" + op.Name
+				}
+				if op.Via != 0 {
+					o.Probes["renders_through_a_wrapper"]++
+				}
+				out, err := e.Render(top, nil)
 				gerr = err
 				if err == nil {
 					got = verOf(out)
-					if out != fmt.Sprintf("[%s#v%d]2", op.Name, got) {
+					if out != pre+fmt.Sprintf("[%s#v%d]2", op.Name, got) {
 						return fail("rendered output is not the tagged source", fmt.Sprintf("op #%d render %s: %q", oi, op.Name, out))
 					}
 				}
@@ -873,6 +895,8 @@ func opsText(ops []c15Op) string {
 			s += fmt.Sprintf("chainadd(L%d) ", op.L)
 		case "register":
 			s += fmt.Sprintf("register(%s,via%d) ", op.Name, op.Via)
+		case "render":
+			s += fmt.Sprintf("render(%s%s) ", op.Name, []string{"", " through include", " through extends"}[op.Via%3])
 		case "fault":
 			s += fmt.Sprintf("fault(L%d,%s) ", op.L, op.F)
 		default:
